@@ -285,6 +285,68 @@ func (s *Session) counts() (lastChange, lastRequest, sent, starts, dones, lastEn
 	return
 }
 
+// clientsBusyLocked (s.mu held): some handler still has something to do according to the trace — a wake-up it has not
+// consumed, a result read but not written, a loop iteration begun, or a dropped peer whose handler has not exited.
+// Only used to decide WHEN to sample; a server that never gets there is reported through the timeout.
+func (s *Session) clientsBusyLocked() bool {
+	type st struct {
+		wake, woken int
+		phase       string
+		dropped     bool
+	}
+	cs := map[int]*st{}
+	get := func(id int) *st {
+		if cs[id] == nil {
+			cs[id] = &st{}
+		}
+		return cs[id]
+	}
+	for _, e := range s.trace {
+		if e.C < 0 {
+			continue
+		}
+		c := get(e.C)
+		switch e.K {
+		case "admitted", "accepted":
+			c.phase = "starting"
+		case "register":
+			c.phase = "loop"
+		case "wake":
+			c.wake++
+		case "woken":
+			c.woken++
+			c.phase = "loop"
+		case "read":
+			if e.V >= 0 {
+				c.phase = "have"
+			} else {
+				c.phase = "blocked"
+			}
+		case "write":
+			if e.OK {
+				c.phase = "blocked"
+			} else {
+				c.phase = "leaving"
+			}
+		case "unregister":
+			c.phase = "leaving"
+		case "exit", "accept_fail", "refuse":
+			c.phase = "gone"
+		case "drop":
+			c.dropped = true
+		}
+	}
+	for _, c := range cs {
+		if c.phase == "gone" {
+			continue
+		}
+		if c.phase != "blocked" || c.wake != c.woken || c.dropped {
+			return true
+		}
+	}
+	return false
+}
+
 // Quiesce waits until the server has nothing left to do (no event for `idle`, every request consumed, every compile
 // broadcast, a request seen after the last edit) or the timeout passes, and records what every client has by then.
 func (s *Session) Quiesce(idle, timeout time.Duration) bool {
@@ -294,8 +356,9 @@ func (s *Session) Quiesce(idle, timeout time.Duration) bool {
 		s.mu.Lock()
 		lc, lr, sent, starts, dones, _ := s.counts()
 		quiet := time.Since(s.lastEv) >= idle
+		busy := s.clientsBusyLocked()
 		s.mu.Unlock()
-		if quiet && lr > lc && sent == starts && starts == dones {
+		if quiet && lr > lc && sent == starts && starts == dones && !busy {
 			ok = true
 			break
 		}
